@@ -390,6 +390,11 @@ func c14Keywords(c *Ctx, rule string) {
 			// value: the loop variable; key: tokens[loop variable]
 			phi, ok := mu.Value.(*ssa.Phi)
 			if !ok {
+				// `for i, text := range tokens[first:last+1] { keywords[text] = first + i }`
+				if l, h, okR := c.rangeSliceUpdate(mu); okR {
+					c.R.Check(rule, "init-range", c.P.InstrPos(in), l == first && h-1 == last, fmt.Sprintf("init fills the keyword map for kinds [%d,%d] keyed by the token table; the keyword kinds are [%d,%d]", l, h-1, first, last))
+					return
+				}
 				c.R.Undecided(rule, "init-range", c.P.InstrPos(in), "keyword map value is not a loop variable")
 				return
 			}
@@ -1082,90 +1087,99 @@ func (c *Ctx) keywordBuilderRange(kwG *ssa.Global) (lo, hi int64, pos string, ok
 			if !returned {
 				return
 			}
-			// key = S[I], S = tokens[lo:hi]
-			ku, isU := mu.Key.(*ssa.UnOp)
-			if !isU {
-				return
-			}
-			ia, isIA := ku.X.(*ssa.IndexAddr)
-			if !isIA {
-				return
-			}
-			sl, isSl := ia.X.(*ssa.Slice)
-			if !isSl || sl.Low == nil || sl.High == nil {
-				return
-			}
-			if gl, isG := sl.X.(*ssa.Global); !isG || gl.Name() != c.P.alias("tokens") {
-				return
-			}
-			l, okL := constIntArg(sl.Low)
-			h, okH := constIntArg(sl.High)
-			if !okL || !okH {
-				return
-			}
-			// value = lo + I
-			bo, isB := mu.Value.(*ssa.BinOp)
-			if !isB || bo.Op != token.ADD {
-				return
-			}
-			strip := func(v ssa.Value) ssa.Value {
-				for {
-					if cv, isCv := v.(*ssa.Convert); isCv {
-						v = cv.X
-						continue
-					}
-					if ct, isCt := v.(*ssa.ChangeType); isCt {
-						v = ct.X
-						continue
-					}
-					return v
-				}
-			}
-			var base int64
-			var idx ssa.Value
-			if k, isK := constIntArg(bo.X); isK {
-				base, idx = k, strip(bo.Y)
-			} else if k, isK := constIntArg(bo.Y); isK {
-				base, idx = k, strip(bo.X)
-			} else {
-				return
-			}
-			if idx != ia.Index || base != l {
-				return
-			}
-			// I is the range index: phi(-1, I) + 1, compared with len(S)
-			inc, isInc := idx.(*ssa.BinOp)
-			if !isInc || inc.Op != token.ADD {
-				return
-			}
-			phi, isPhi := inc.X.(*ssa.Phi)
-			one, isOne := constIntArg(inc.Y)
-			if !isPhi || !isOne || one != 1 {
-				return
-			}
-			start := false
-			for _, e := range phi.Edges {
-				if k, isK := constIntArg(e); isK && k == -1 {
-					start = true
-				} else if e != idx {
-					return
-				}
-			}
-			bounded := false
-			for _, ref := range *inc.Referrers() {
-				if cmp, isCmp := ref.(*ssa.BinOp); isCmp && cmp.Op == token.LSS && cmp.X == idx {
-					if call, isC := cmp.Y.(*ssa.Call); isC && isBuiltinCall(call, "len") && call.Call.Args[0] == ssa.Value(sl) {
-						bounded = true
-					}
-				}
-			}
-			if !start || !bounded {
+			l, h, okR := c.rangeSliceUpdate(mu)
+			if !okR {
 				return
 			}
 			lo, hi, pos, ok = l, h-1, c.P.InstrPos(in), true
 		})
 	}
 	return
+}
+
+// rangeSliceUpdate: the map update `m[text] = lo + i` inside `for i, text := range tokens[lo:hi]`; returns lo, hi.
+func (c *Ctx) rangeSliceUpdate(mu *ssa.MapUpdate) (int64, int64, bool) {
+	// key = S[I], S = tokens[lo:hi]
+	ku, isU := mu.Key.(*ssa.UnOp)
+	if !isU {
+		return 0, 0, false
+	}
+	ia, isIA := ku.X.(*ssa.IndexAddr)
+	if !isIA {
+		return 0, 0, false
+	}
+	sl, isSl := ia.X.(*ssa.Slice)
+	if !isSl || sl.Low == nil || sl.High == nil {
+		return 0, 0, false
+	}
+	if gl, isG := sl.X.(*ssa.Global); !isG || gl.Name() != c.P.alias("tokens") {
+		return 0, 0, false
+	}
+	l, okL := constIntArg(sl.Low)
+	h, okH := constIntArg(sl.High)
+	if !okL || !okH {
+		return 0, 0, false
+	}
+	// value = lo + I
+	bo, isB := mu.Value.(*ssa.BinOp)
+	if !isB || bo.Op != token.ADD {
+		return 0, 0, false
+	}
+	strip := func(v ssa.Value) ssa.Value {
+		for {
+			if cv, isCv := v.(*ssa.Convert); isCv {
+				v = cv.X
+				continue
+			}
+			if ct, isCt := v.(*ssa.ChangeType); isCt {
+				v = ct.X
+				continue
+			}
+			return v
+		}
+	}
+	var base int64
+	var idx ssa.Value
+	if k, isK := constIntArg(bo.X); isK {
+		base, idx = k, strip(bo.Y)
+	} else if k, isK := constIntArg(bo.Y); isK {
+		base, idx = k, strip(bo.X)
+	} else {
+		return 0, 0, false
+	}
+	if idx != ia.Index || base != l {
+		return 0, 0, false
+	}
+	// I is the range index: phi(-1, I) + 1, compared with len(S)
+	inc, isInc := idx.(*ssa.BinOp)
+	if !isInc || inc.Op != token.ADD {
+		return 0, 0, false
+	}
+	phi, isPhi := inc.X.(*ssa.Phi)
+	one, isOne := constIntArg(inc.Y)
+	if !isPhi || !isOne || one != 1 {
+		return 0, 0, false
+	}
+	start := false
+	for _, e := range phi.Edges {
+		if k, isK := constIntArg(e); isK && k == -1 {
+			start = true
+		} else if e != idx {
+			return 0, 0, false
+		}
+	}
+	bounded := false
+	for _, ref := range *inc.Referrers() {
+		if cmp, isCmp := ref.(*ssa.BinOp); isCmp && cmp.Op == token.LSS && cmp.X == idx {
+			if call, isC := cmp.Y.(*ssa.Call); isC && isBuiltinCall(call, "len") && call.Call.Args[0] == ssa.Value(sl) {
+				bounded = true
+			}
+		}
+	}
+	if !start || !bounded {
+		return 0, 0, false
+	}
+	return l, h, true
 }
 
 // isTokStoreFree: always true; kept as the hook where a stricter condition on the caller's side of a tail call
